@@ -68,8 +68,8 @@ func runAuthz(c *h.Ctx, r *h.Report) {
 						for _, ck := range cs {
 							for _, o := range originStates {
 								for _, rf := range refererStates {
-									a := authParts{Headers: hd.vals, Query: q.vals, Cookies: ck.vals, Origin: o, Referer: rf}
-									d := fmt.Sprintf("h=%s q=%s c=%s origin=%q referer=%q", hd.name, q.name, ck.name, o, rf)
+									a := authParts{Headers: hd.vals, Query: q.vals, Cookies: ck.vals, Origin: o, Referer: rf, QSpell: len(reqs) / 2 % 3}
+									d := fmt.Sprintf("h=%s q=%s c=%s origin=%q referer=%q spelling=%d", hd.name, q.name, ck.name, o, rf, a.QSpell)
 									reqs = append(reqs, req{"pub-tA", a, d}, req{"pub-tB", a, d})
 								}
 							}
@@ -84,7 +84,9 @@ func runAuthz(c *h.Ctx, r *h.Report) {
 								for _, or := range [][2]string{{"", ""}, {"https://evil.example", ""}, {"", "https://%zz"}} {
 									a := authParts{Headers: hd.vals, Query: q.vals, Cookies: ck.vals, Origin: or[0], Referer: or[1]}
 									d := fmt.Sprintf("h=%s q=%s c=%s origin=%q referer=%q", hd.name, q.name, ck.name, or[0], or[1])
-									reqs = append(reqs, req{"sub", a, d}, req{"api-all", a, d}, req{"api-topic", a, d})
+									as := a
+									as.QSpell = len(reqs) / 3 % 3
+									reqs = append(reqs, req{"sub", as, d + fmt.Sprintf(" spelling=%d", as.QSpell)}, req{"api-all", a, d}, req{"api-topic", a, d})
 								}
 							}
 						}
@@ -238,7 +240,7 @@ func whoOf(f *fixture, a authParts, publisher bool) string {
 	r, _ := http.NewRequest(method, "http://hub.test"+hubURL, nil)
 	q := url.Values{}
 	a.apply(r, f.cookie, q)
-	r.URL.RawQuery = q.Encode()
+	r.URL.RawQuery = a.encode(q)
 
 	return mercure.VerifAuthorize(f.hub, r, publisher)
 }
